@@ -34,6 +34,11 @@ class _Named:
     def _mkname(self, kind):
         _Named._count += 1
         self.simname = f'{kind}#{_Named._count}'
+        # building a primitive is not atomic (queue.Queue.__init__ is Python code that allocates locks and a deque): a managed
+        # task that constructs one - e.g. through a defaultdict(Queue) miss at first use - can be overtaken while it does
+        k = _KERNEL
+        if k is not None and k.current() is not None:
+            k.point('new', self.simname)
 
 
 class _Token:
